@@ -50,6 +50,28 @@ def check_config(cfg, w, rep, strict_single=False):
             rep.ob(cfg, "a-publish-before-index", key, "index insertion in `%s` is reachable only through the Ok arm of %s" % (
                 short(lf.path), gates[0].what))
     rep.floor("commits", len(R.commits), (2 if is_async else 1) * (2 if "link_to" in cfg else 1), cfg)
+    # "whenever the new entry is visible its content is already completely stored": the publication the insert waits for must not
+    # report success on a failed step unless the address really holds content — close() (C03 e) and, with link_to, the linker's
+    # symlink step (C19 d), re-checked here
+    from ..framework import Report
+    subs = []
+    from . import c03
+    sb = Report("C03")
+    c03.check_config(cfg, w, sb)
+    subs.append((sb, ("e-failed-publication",)))
+    if "link_to" in cfg:
+        from . import c19
+        sb = Report("C19")
+        c19.check_config(cfg, w, sb)
+        subs.append((sb, ("d-existing-destination",)))
+    for sb, rules in subs:
+        for (c_, rule, k, desc, ok) in sb.obligations:
+            if rule in rules and ok:
+                rep.ob(cfg, "a/" + rule, k, desc)
+        for k, v in sb.violations.items():
+            if v.rule in rules:
+                rep.violation("a:%s" % k, "an entry could become visible although its content is not stored — " + v.msg, loc=v.loc, config=cfg,
+                              rule="a/" + v.rule, witness=v.witness)
 
     # ---- (b) one record = "\n" + HASH_ENTRY(json) + "\t" + json, emitted by all-or-error writes on the append handle ----
     # (crash atomicity needs the leading newline, the checksum and writes that cannot silently stop half-way; that the
